@@ -35,6 +35,7 @@ class StoreWorld:
       ["add", event]                     storage.add_event
       ["cadd", [events]]                 several storage.add_event calls started together (overlapping)
       ["csub", filters, [events]]        a subscription's stored query overlapping with add_event calls
+      ["csubs", [filters, ...]]          several subscriptions (different connections) whose stored queries overlap
       ["query", filters]                 storage.run_single_query (no max_limit)
       ["sub", filters]                   storage.subscribe + collect until EOSE (applies max_limit)
       ["get", id]                        storage.get_event
@@ -133,6 +134,12 @@ class StoreWorld:
                     o["post"] = env.dump()
                     if self.full_gc:
                         self._full_post(o)
+            elif kind == "csubs":
+                # several REQs of different connections whose stored queries overlap: ["csubs", [filters, filters, ...]]
+                import asyncio as _aio
+                res = await _aio.gather(*[self.subscribe_collect(fs, "q%d" % i, addr="10.0.1.%d" % (i + 1))
+                                          for i, fs in enumerate(op[1])])
+                o["res"] = ["ok", list(res)]
             elif kind == "csub":
                 # a REQ whose stored query runs while other events are being written: ["csub", filters, [events]]
                 import asyncio as _aio
@@ -256,12 +263,12 @@ class StoreWorld:
                 self.gc = KVGarbageCollector(self.env.storage)
         return self.gc
 
-    async def subscribe_collect(self, filters, sub_id="s"):
+    async def subscribe_collect(self, filters, sub_id="s", addr="10.0.0.9"):
         """the path a REQ takes: storage.subscribe with a queue; collect until EOSE"""
         from nostr_relay.util import ClientID
         st = self.env.storage
         q = asyncio.Queue()
-        cid = ClientID("10.0.0.9")
+        cid = ClientID(addr)
         out = []
         try:
             await st.subscribe(cid, sub_id, copy.deepcopy(filters), q)
